@@ -188,6 +188,17 @@ fn mode_report(params: &[String], argv: &[Vec<u8>]) -> ! {
         }
     }
     write_atomic(&format!("{}.{}.json", prefix, pid), s.as_bytes());
+    // optional 4th parameter: stay alive until that file exists (at most 30 s)
+    if let Some(rel) = params.get(3) {
+        if !rel.is_empty() {
+            for _ in 0..6000 {
+                if std::path::Path::new(rel).exists() {
+                    break;
+                }
+                std::thread::sleep(std::time::Duration::from_millis(5));
+            }
+        }
+    }
     match hold {
         "hold" => loop {
             unsafe { libc::pause() };
@@ -218,6 +229,9 @@ fn mode_stage(p: &[String]) -> ! {
     let delay: u64 = p[2].parse().unwrap_or(0);
     let code: i32 = p[3].parse().unwrap_or(0);
     let marker = format!("{}/started.{}", p[4], p[5]);
+    if p.get(6).map(|s| s.as_str()) == Some("igterm") {
+        unsafe { libc::signal(libc::SIGTERM, libc::SIG_IGN) };
+    }
     write_atomic(&marker, format!("{}", unsafe { libc::getpid() }).as_bytes());
     let mut out = std::io::stdout();
     let mut err = std::io::stderr();
